@@ -523,6 +523,28 @@ def Env.wfAux (env : Env) : List (Bytes × G) → Bool
 
 def Env.wf (env : Env) : Bool := Env.wfAux env env
 
+/-- Every `*Choices` node has one `stops` entry per option (set by `CheckConflicts`). -/
+def G.stopsLen : G → Bool
+  | .choice opts stops => stops.length == opts.length && stopsLenL opts
+  | .seq items => stopsLenL items
+  | .rep0 g => g.stopsLen
+  | .rep1 g => g.stopsLen
+  | .rep01 g => g.stopsLen
+  | .adjoin a b => a.stopsLen && b.stopsLen
+  | _ => true
+where stopsLenL : List G → Bool
+  | [] => true
+  | g :: r => g.stopsLen && stopsLenL r
+
+def Env.stopsLen : Env → Bool
+  | [] => true
+  | (_, g) :: r => g.stopsLen && Env.stopsLen r
+
+/-- `STRING` tokens carry their text (the scanner never yields an empty literal). -/
+def toksOk : List Tok → Bool
+  | [] => true
+  | t :: r => (t.kind != tokSTRING || !t.lit.isEmpty) && toksOk r
+
 /-- Fuel that `Props/C28.lean` proves sufficient for any match with a checked grammar. -/
 def matchBound (env : Env) (ntoks : Nat) : Nat :=
   ntoks * (env.firstFuel + env.maxSize + 1) + (env.firstFuel + env.maxSize)
